@@ -417,6 +417,21 @@ pub fn run(ctx: &RunCtx) -> i32 {
                     req.headers.push(("x-verif-signed-1".into(), g.alnum(6).into_bytes()));
                     signed.push("x-verif-signed-1");
                 }
+                // one URL in five is used with dozens of header lines, among them a signed header sent twice with different
+                // values (they are joined in arrival order), all in a random order of arrival
+                if g.chance(1, 5) {
+                    for i in 0..31 + g.usize_below(50) {
+                        req.headers.push((format!("x-verif-u{}-{i}", g.lower_alnum(3)), g.alnum(5).into_bytes()));
+                    }
+                    req.headers.push(("x-verif-signed-2".into(), format!("first-{}", g.alnum(3)).into_bytes()));
+                    req.headers.push(("x-verif-signed-2".into(), format!("second-{}", g.alnum(3)).into_bytes()));
+                    if g.chance(1, 2) {
+                        req.headers.push(("x-verif-signed-2".into(), b"third".to_vec()));
+                    }
+                    signed.push("x-verif-signed-2");
+                    g.shuffle(&mut req.headers);
+                    r.count("urls_used_with_more_than_32_header_lines", 1);
+                }
                 let ak = crate::monitor::c05::pick_ak(&mut g);
                 let p = V4Params { access_key: ak.into(), secret: secrets[ak].clone(), amz_date: unix_to_amz_date(now_unix() + delta), region: "us-east-1".into(), service: "s3".into() };
                 v4_presign(&mut req, &p, expires, &signed);
